@@ -32,16 +32,19 @@ Definition opt_list_eqb (a b : option (list nat)) : bool :=
   | _, _ => false
   end.
 
-(* the property's domain: a curve of n >= 3 points, >= 2 strictly increasing interior knees, well-shaped labels *)
-Definition domain (xs ys : list float) (knees labels : list nat) : bool :=
+(* the property's domain: a curve of n points, >= 2 strictly increasing knees, well-shaped labels; the knees are
+   interior for the corner variant (it reads both neighbours of a knee), any valid index for filter_clusters
+   (whose hull branch clamps the neighbours of the cluster span to the curve) *)
+Definition domain (interior_only : bool) (xs ys : list float) (knees labels : list nat) : bool :=
   (length xs =? length ys) && (2 <=? length knees) && strictly_increasing knees
-  && forallb (fun k => (1 <=? k) && (k + 1 <? length xs)) knees && labels_ok labels knees.
+  && forallb (fun k => if interior_only then (1 <=? k) && (k + 1 <? length xs) else k <? length xs) knees
+  && labels_ok labels knees.
 
 Definition clusters (labels knees : list nat) : list (list nat) :=
   map (members labels knees) (seq 0 (S (max_label labels))).
 
 (* every oracle entry the model will ask for is in the tables, with the right shape *)
-Definition keys_ok (m : fmode) (knees labels hull : list nat)
+Definition keys_ok (m : fmode) (n : nat) (knees labels hull : list nat)
            (scores : list (list nat * list float)) (sd : list (nat * nat * float)) : bool :=
   forallb (fun c =>
     if length c <=? 1 then true
@@ -51,7 +54,7 @@ Definition keys_ok (m : fmode) (knees labels hull : list nat)
       if length hw <=? 1 then true
       else forallb (fun j => if mem j hw then
                                (match find_sd sd (a - 1) j with Some _ => true | None => false end)
-                               && (match find_sd sd j (b + 1) with Some _ => true | None => false end)
+                               && (match find_sd sd j (Nat.min (b + 1) (n - 1)) with Some _ => true | None => false end)
                              else true) c
     else match find_score scores c with Some r => length r =? length c | None => false end)
   (clusters labels knees).
@@ -77,8 +80,8 @@ Definition has_nan_scores (m : fmode) (knees labels : list nat) (scores : list (
 Definition judge (c : case) : Z :=
   match c with
   | CFilt m xs ys knees labels hull scores sd out =>
-      if negb (domain xs ys knees labels) then 600%Z else
-      if negb (keys_ok m knees labels hull scores sd) then 400%Z else
+      if negb (domain false xs ys knees labels) then 600%Z else
+      if negb (keys_ok m (length xs) knees labels hull scores sd) then 400%Z else
       let model := @filter_clusters FloatNum (@argsort_stable FloatNum) (score_of scores) hull (sd_of sd) xs m labels knees in
       let tie := existsb (fun c => match rankings_of m xs hull scores sd c with Some r => top_tie r | None => false end)
                          (clusters labels knees) in
@@ -92,7 +95,7 @@ Definition judge (c : case) : Z :=
                end in
       (100 * a + h)%Z
   | CCorner xs ys knees labels out =>
-      if negb (domain xs ys knees labels) then 600%Z else
+      if negb (domain true xs ys knees labels) then 600%Z else
       let model := @filter_clusters_corners FloatNum xs ys labels knees in
       let a := if opt_list_eqb model out then 0%Z else 1%Z in
       let h := match out with
